@@ -302,7 +302,7 @@ void gen_methods(Rng& rng, const GenProfile& p, Registry& r, const Oracle& o) {
         do {
             m.shape = allowed[rng.below(allowed.size())];
             m.inst = (int)rng.below(NINST);
-            if (p.big && k < 2) { // the two method objects that have MAXDEF_BIG bodies
+            if ((p.big || p.many_defs) && k < 2) { // the two method objects that have MAXDEF_BIG bodies
                 m.shape = k == 0 ? 0 : 6;
                 m.inst = 0;
             }
@@ -333,7 +333,7 @@ void gen_methods(Rng& rng, const GenProfile& p, Registry& r, const Oracle& o) {
         }
         int nd = (int)rng.below(p.max_defs + 1);
         int style = (int)rng.below(4);
-        if (p.big && max_defs_of(m.shape, m.inst) == MAXDEF_BIG)
+        if ((p.big || p.many_defs) && max_defs_of(m.shape, m.inst) == MAXDEF_BIG)
             nd = rng.range(MAXDEF_BIG - 8, MAXDEF_BIG); // more than 64 definitions: masks wider than a word
         for (int d = 0; d < nd && d < max_defs_of(m.shape, m.inst); ++d) {
             Def def;
